@@ -137,8 +137,9 @@ fn fwd(op: &Op, _ctx: &dyn Context, operands: &mut dyn CoordinateSet) -> usize {
                 // Interpolated deformation velocity
                 if let Some(v) = grid.at(&geo, margin) {
                     // The deformation duration may be given either as a fixed duration or
-                    // as the difference between the frame epoch and the observation epoch
-                    let d = if dt.is_finite() { dt } else { epoch - geo[3] };
+                    // as the time elapsed from the frame epoch to the observation epoch,
+                    // i.e. (T1 - T0) in eq. 3 above
+                    let d = if dt.is_finite() { dt } else { geo[3] - epoch };
 
                     let deformation =
                         rotate_and_integrate_velocity(v.scale(-1.), geo[0], geo[1], d);
@@ -193,8 +194,9 @@ fn inv(op: &Op, _ctx: &dyn Context, operands: &mut dyn CoordinateSet) -> usize {
                 // Interpolated deformation velocity
                 if let Some(v) = grid.at(&geo, margin) {
                     // The deformation duration may be given either as a fixed duration or
-                    // as the difference between the frame epoch and the observation epoch
-                    let d = if dt.is_finite() { dt } else { epoch - geo[3] };
+                    // as the time elapsed from the frame epoch to the observation epoch,
+                    // i.e. (T1 - T0) in eq. 3 above
+                    let d = if dt.is_finite() { dt } else { geo[3] - epoch };
 
                     let deformation = rotate_and_integrate_velocity(v, geo[0], geo[1], d);
 
